@@ -108,6 +108,34 @@ theorem nodup_update (d : AList κ β) (ps : List (κ × β)) (h : (d.map (·.1)
 theorem nodup_ofPairs (ps : List (κ × β)) : ((AList.ofPairs ps : AList κ β).map (·.1)).Nodup :=
   nodup_update [] ps (by simp)
 
+theorem set_of_not_mem (d : AList κ β) (k : κ) (b : β) (h : k ∉ d.map (·.1)) :
+    AList.set d k b = d ++ [(k, b)] := by
+  induction d with
+  | nil => rfl
+  | cons p r ih =>
+    obtain ⟨k0, b0⟩ := p
+    simp only [List.map_cons, List.mem_cons, not_or] at h
+    simp only [AList.set, if_neg (Ne.symm h.1), ih h.2, List.cons_append]
+
+theorem update_of_nodup (d l : AList κ β) (hn : (l.map (·.1)).Nodup)
+    (hd : ∀ k ∈ l.map (·.1), k ∉ d.map (·.1)) : AList.update d l = d ++ l := by
+  induction l generalizing d with
+  | nil => simp [AList.update]
+  | cons p r ih =>
+    obtain ⟨k0, b0⟩ := p
+    simp only [List.map_cons, List.nodup_cons] at hn
+    have h0 : k0 ∉ d.map (·.1) := hd k0 (by simp)
+    have : AList.update d ((k0, b0) :: r) = AList.update (AList.set d k0 b0) r := rfl
+    rw [this, set_of_not_mem d k0 b0 h0, ih _ hn.2]
+    · simp
+    · intro k hk
+      simp only [List.map_append, List.map_cons, List.map_nil, List.mem_append, List.mem_singleton, not_or]
+      exact ⟨hd k (by simp [hk]), fun e => hn.1 (e ▸ hk)⟩
+
+/-- `dict(items)` of a listing without repeated keys is that listing -/
+theorem ofPairs_of_nodup (l : AList κ β) (hn : (l.map (·.1)).Nodup) : AList.ofPairs l = l := by
+  simp [AList.ofPairs, update_of_nodup [] l hn]
+
 theorem lastVal_of_nodup (d : AList κ β) (k : κ) (h : (d.map (·.1)).Nodup) :
     lastVal d k = AList.get? d k := by
   induction d with
